@@ -18,7 +18,9 @@ func modelFor(info *runInfo, h *history, w *write) (*modelIn, string) {
 		return nil, "no configuration for interface"
 	}
 	if w.build == nil {
-		return nil, "transmission without a preceding forwarding read by the same goroutine"
+		// The RA was generated without asking the system for the forwarding
+		// state (a cached value?): judge it by what the system would have said.
+		w.build = &build{g: w.g, node: w.node, ifn: w.ifn, seq: w.seq, t1: w.t, t2: w.t, fwd: worldFwdAt(info, w.node, w.ifn, w.seq)}
 	}
 	g := h.byKey[genKey(w.node, w.ifn, w.gen)]
 	nLoop := len(info.plan.LoopIdx)
@@ -188,4 +190,24 @@ func c01Oracle(info *runInfo, res *verifsim.Result) {
 
 func init() {
 	register("C01", nil, c01Gen, c01Oracle)
+}
+
+// worldFwdAt returns the interface's forwarding sysctl as of event seq.
+func worldFwdAt(info *runInfo, node int, ifn string, seq int) bool {
+	v := false
+	for _, iw := range info.plan.Nodes[node].Ifaces {
+		if iw.Name == ifn {
+			v = iw.Fwd
+		}
+	}
+	for i := range info.ev {
+		e := &info.ev[i]
+		if e.Seq >= seq {
+			break
+		}
+		if e.K == "act.fwd" && e.Node == node && e.If == ifn {
+			v = e.V == 1
+		}
+	}
+	return v
 }
